@@ -545,7 +545,8 @@ func main() {
 	defer os.RemoveAll(base)
 	// vacuity classes are counted on the attempt (reference) side: a failed attempt is a violation, not a vacuous run
 	r.Require("roundtrip_checked/create", "roundtrip_checked/import-meta", "roundtrip_checked/import-ext", "other_password_checked",
-		"changepassword_checked", "unlock_checked", "create_empty_password_refused")
+		"changepassword_checked", "unlock_checked", "create_empty_password_refused",
+		"seq_checked", "seq_last/export-low", "seq_last/export", "seq_last/clone-mutate", "seq_last/delete", "seq_export_file_checked")
 
 	sch := schemes(r.Thorough())
 	var flat []struct {
@@ -644,6 +645,7 @@ func main() {
 			}
 		}
 	}
+	partSeq(r, base) // first: cheap, and it must not be the part a loaded host cuts
 	var wg sync.WaitGroup
 	ch := make(chan walletSpec)
 	for w := 0; w < 16; w++ {
@@ -676,7 +678,7 @@ func main() {
 		"labels are valid UTF-8 (encoding/json replaces invalid bytes on save)",
 		"quick tier: default-parameter wallets (scrypt N=16384) carry every scheme and every password once per path; the full scheme × password matrix runs on low-security wallets (N=4096, WalletData.ToLowSecurity)")
 	r.Finish(map[string]any{
-		"rule": fmt.Sprintf("%d key/signature schemes × %d passwords × paths {create, import-meta, import-ext} × wallet kinds {default, lowsec} (%s), wallets of 3 accounts; per account: own password via ByAddress/ByIndex/ByLabel/Default after reopen, ~12 other passwords (alphabet + byte neighbours), ChangePassword (2nd account) and UnLockAccount (3rd account) sequences; plus empty password and legacy aes-256-ctr imports",
-			len(sch), len(passwords), map[bool]string{true: "full product", false: "quick: full matrix on lowsec/import-ext, covering rows elsewhere"}[r.Thorough()]),
+		"rule": fmt.Sprintf("%d key/signature schemes × %d passwords × paths {create, import-meta, import-ext} × wallet kinds {default, lowsec} (%s), wallets of 3 accounts; per account: own password via ByAddress/ByIndex/ByLabel/Default after reopen, ~12 other passwords (alphabet + byte neighbours), ChangePassword (2nd account) and UnLockAccount (3rd account) sequences; plus empty password and legacy aes-256-ctr imports; part S: every sequence of length ≤ %d over the 13-operation alphabet {new, import, chpw, setlabel, setdefault, chsig, delete, reload, export, export-clone, export-low, clone-mutate, getdata} after setup [new] on a cheap-scrypt wallet + 5 cmd-shaped sequences on a default wallet; after every sequence: live wallet in memory, original file reloaded, every exported file reloaded",
+			len(sch), len(passwords), map[bool]string{true: "full product", false: "quick: full matrix on lowsec/import-ext, covering rows elsewhere"}[r.Thorough()], r.QT(3, 4)),
 	})
 }
